@@ -4,6 +4,7 @@
 package main
 
 import (
+	"math/big"
 	"bytes"
 	"fmt"
 	"strings"
@@ -42,6 +43,8 @@ func refWif(s string) (res refWifRes) {
 	res.ok = true
 	return
 }
+
+var secpN, _ = new(big.Int).SetString("FFFFFFFFFFFFFFFFFFFFFFFFFFFFFFFEBAAEDCE6AF48A03BBFD25E8CD0364141", 16)
 
 func mkWif(payload []byte) string {
 	return refB58Encode(append(append([]byte{}, payload...), dsha(payload)[:4]...))
@@ -98,8 +101,12 @@ func checkWifDec(kind, s string) {
 	rep["impl"] = il
 	// property predicate on the real code
 	if pan != "" {
-		// NewPrivateAddr panics for a key that is 0 or >= the group order; the string codec itself is fine
-		if ref.ok || ref.nearOK {
+		// NewPrivateAddr may panic ("PublicFromPrivate error") for a key that is 0 or >= the group order; the string
+		// codec itself is fine. Only THAT panic on THAT kind of key is tolerated: any other message, or this one for a
+		// key inside 1..n-1, is a failure of the decoder on a string the reference calls valid.
+		kv := new(big.Int).SetBytes(ref.key)
+		outOfRange := len(ref.key) == 32 && (kv.Sign() == 0 || kv.Cmp(secpN) >= 0)
+		if (ref.ok || ref.nearOK) && outOfRange && strings.Contains(pan, "PublicFromPrivate error") {
 			r.Hit("wifdec-key-out-of-range")
 		} else {
 			r.PropFail("wif-panic", fmt.Sprintf("DecodePrivateAddr(%q) panics: %s", s, pan), rep)
